@@ -65,7 +65,10 @@ def main():
     schemas = S.corpus() + S.random_schemas(rep.seed, 2 if quick else 25)
     if quick:
         schemas = [s for s in schemas if s.name in ("prims_le", "hdrs_le", "layout_be")] + schemas[6:]
-    cfgs = [build.Cfg("g++", "17", "san", defs=("SBEPP_ENABLE_ASSERTS_WITH_HANDLER",))]
+    # the last configuration is a build *without* checks (ASan watches it): sbepp.hpp has separate arms for
+    # SBEPP_SIZE_CHECKS_ENABLED on and off; only the legal actions are run there (an illegal one is UB without checks)
+    UNCHECKED = build.Cfg("g++", "14", "san", defs=("SBEPP_DISABLE_ASSERTS",))
+    cfgs = [build.Cfg("g++", "17", "san", defs=("SBEPP_ENABLE_ASSERTS_WITH_HANDLER",)), UNCHECKED]
     if not quick:
         cfgs += [build.Cfg("clang++", "11", "san", defs=("SBEPP_ENABLE_ASSERTS_WITH_HANDLER",)),
                  build.Cfg("g++", "20", "plain", defs=("SBEPP_ENABLE_ASSERTS_WITH_HANDLER",)),
@@ -220,7 +223,7 @@ def main():
         def run_batch(b):
             img_cmd, cases, image = b
             res = {}
-            pending = list(cases)
+            pending = [c for c in cases if c["legal"]] if str(cfg) == str(UNCHECKED) else list(cases)
             deaths = []
             guard = 0
             while pending and guard < 20:
